@@ -25,6 +25,31 @@ Theorem C13_cs_order_respects_real_time : forall h a b ia ra ca cb ib,
 Proof. exact cs_order_respects_real_time. Qed.
 Theorem C13_count_matches : forall ops s, m_ok s -> m_ok (fst (run_cs s ops)).
 Proof. exact count_matches. Qed.
+(* (A, assembled) for every history of invocations, critical sections and responses of any number of concurrent calls on
+   any ids: the order of the critical sections is a linearization - it contains every call that took effect exactly
+   once, a call that returned before another was invoked comes first, and the outcomes and the final set of the
+   concurrent execution (only critical sections touch the id map) are those of the sequential set run in that order,
+   with the item count equal to the number of stored ids *)
+Theorem C13_membership_linearizable : forall op h s,
+  NoDup h -> (forall k, In (HCs k) h -> call_ok h k) ->
+  let lin := cs_order h in
+  NoDup lin /\ (forall k, In k lin <-> In (HCs k) h) /\
+  (forall a b ra ib, In a lin -> In b lin -> pos (is_ret a) h 0 = Some ra -> pos (is_inv b) h 0 = Some ib -> ra < ib ->
+     exists xa xb, idx a lin 0 = Some xa /\ idx b lin 0 = Some xb /\ xa < xb) /\
+  exec_hist op h s = (fst (run_cs s (map op lin)), combine lin (snd (run_cs s (map op lin)))) /\
+  (m_ok s -> m_ok (fst (exec_hist op h s))).
+Proof. exact membership_linearizable. Qed.
+(* two overlapping inserts of id 5: the one whose critical section comes first succeeds, the other is refused *)
+Example C13_linearizable_nonvacuous :
+  let h := [HInv 0; HInv 1; HCs 1; HCs 0; HRet 0; HRet 1] in
+  NoDup h /\ (forall k, In (HCs k) h -> call_ok h k) /\
+  snd (exec_hist (fun _ => MIns 5) h {| m_set := []; m_len := 0 |}) = [(1, true); (0, false)].
+Proof.
+  split; [repeat constructor; simpl; intuition discriminate|]. split; [|reflexivity].
+  intros k [H|[H|[H|[H|[H|[H|[]]]]]]]; try discriminate; injection H as <-.
+  - exists 1, 2, 5. repeat split; auto.
+  - exists 0, 3, 4. repeat split; auto.
+Qed.
 
 (* (B) a search running against the writer's removals, in any interleaving and whatever the traversal reaches, returns
    nothing that was already removed when the search was invoked (every returned item was live at some instant of it) *)
@@ -97,4 +122,5 @@ Print Assumptions C13_count_matches.
 Print Assumptions C13_search_never_returns_removed.
 Print Assumptions C13_promotion_monotone.
 Print Assumptions C13_locks_safe_and_live.
+Print Assumptions C13_membership_linearizable.
 Print Assumptions C13_promotion_terminates.
